@@ -15,7 +15,7 @@ RULE = ('A newcomer B registers instance X (allow_name_change False/True, IPv4/I
         'owner A may already advertise X and a chain X-2, X-3 (settled for 2 s..20 min, so A answers probes by unicast only or also by '
         'multicast); B starts before or after A\'s announcements (pre-populated or empty cache); every datagram gets a one-way delay of '
         '0-150 ms per receiver; optionally a conflicting PTR is injected into B at {-50,0,1,174,175,176,349,350,351,400} ms relative '
-        'to the registration call; optionally B registers the same name twice. Oracle on B\'s independently decoded trace and the API '
+        'to the registration call, optionally as the refresh of a pointer that expired in B\'s cache a few seconds earlier; optionally B registers the same name twice. Oracle on B\'s independently decoded trace and the API '
         'result: per candidate three QU PTR probes 175 ms apart with the proposed pointer in the authority section and no answers; '
         'announcements only after the third probe, three of them 225 ms apart with PTR/SRV/TXT/every address/NSEC, configured TTLs and '
         'flush bits on the unique records only; a candidate that B\'s cache learned (same spelling) before its third probe is rejected '
@@ -50,6 +50,9 @@ def scenario(draw) -> Dict[str, Any]:
         'allow': draw(st.booleans()), 'addrs': draw(st.sampled_from([['10.0.0.2'], ['fe80::2'], ['10.0.0.2', 'fe80::2'], ['10.0.0.2', '10.0.0.3']])),
         'host_ttl': draw(st.sampled_from([120, 10])), 'other_ttl': draw(st.sampled_from([4500, 60])),
         'inject': inj, 'twice': draw(st.sampled_from([None, None, None, 0, 1, 400, 2000])),
+        # B's cache holds the (expired, possibly unpurged) pointer of a candidate from 1128 s ago: a later conflicting PTR is then a
+        # refresh of a cached record rather than a new record
+        'pre': draw(st.sampled_from([None, None, 1, 1, 2])) if inj is not None and inj['off'] >= -1000 else None,
     }
 
 
@@ -112,9 +115,10 @@ class Exec:
             await b.zc.async_wait_for_start()
         self.b = b
         inj0 = case['inject']
-        if inj0 is not None and inj0['off'] < -1000:
+        pre_c = case.get('pre') or (inj0['cand'] if inj0 is not None and inj0['off'] < -1000 else None)
+        if pre_c is not None:
             # an expired-but-possibly-unpurged pointer: TTL 1 (floored to 1125 s) injected 1128 s before the registration
-            data0 = wire.encode({'id': 8, 'flags': 0x8400, 'qd': [], 'an': [rp.wire_rr_of_ident(('PTR', TYPE, cand(inj0['cand'])), 1)], 'ns': [], 'ar': []})
+            data0 = wire.encode({'id': 8, 'flags': 0x8400, 'qd': [], 'an': [rp.wire_rr_of_ident(('PTR', TYPE, cand(pre_c)), 1)], 'ns': [], 'ar': []})
             w.net.inject(b, data0, ('10.0.0.9', 5353))
             await asyncio.sleep(1128.0)
         else:
@@ -326,6 +330,8 @@ def check(case: Dict[str, Any]) -> Dict[str, Any]:
         classes.append('rename-chain>=2')
     if case['inject']:
         classes.append('injected-conflict')
+    if case.get('pre'):
+        classes.append('conflict-arrives-as-refresh-of-an-expired-cached-pointer')
     if case['twice'] is not None:
         classes.append('registered-twice')
     if case['b_first']:
